@@ -558,6 +558,7 @@ func c07Helpers(s *c07Sweep, r *rand.Rand, name string, v avfs.VFS, hist *[]stri
 		s.inSet[key] = true
 		verdict, detail := "returns", ""
 		c07Log(key + " on " + name)
+		fsx.BeginCall()
 		func() {
 			defer func() {
 				if x := recover(); x != nil {
